@@ -140,6 +140,8 @@ def build(desc):
         return U.CI(*[build(c) for c in desc[1]])
     if t == 'dc':
         return U.DC(build(desc[1]), build(desc[2]), _meta(desc[3]))
+    if t == 'bad':
+        return U.Bad(desc[1])
     if t == 'partial':
         import optree.functools as oft
         return oft.partial(U.FUNCS[desc[1]], *[build(c) for c in desc[2]],
@@ -249,19 +251,20 @@ def _split(draw, budget, k):
     return parts
 
 
-def _node(draw, budget, depth, keys, kinds, max_depth):
+def _node(draw, budget, depth, keys, kinds, max_depth, leaf=None):
+    leaf = leaf if leaf is not None else _LEAF
     if budget <= 1 or depth >= max_depth:
         if draw(st.integers(0, 9)) == 0:
             return ['none']
         if budget <= 1 and depth < max_depth and draw(st.integers(0, 7)) == 0:
             pass  # fall through: an internal node with few/no children
         else:
-            return draw(_LEAF)
+            return draw(leaf)
     pool = []
     for kname in kinds:
         pool += [kname] * _WEIGHT.get(kname, 1)
     kind = draw(st.sampled_from(pool))
-    rec = lambda b: _node(draw, b, depth + 1, keys, kinds, max_depth)  # noqa: E731
+    rec = lambda b: _node(draw, b, depth + 1, keys, kinds, max_depth, leaf)  # noqa: E731
 
     def kids(maxk=4, mink=0):
         k = draw(st.integers(mink, max(mink, min(maxk, budget))))
@@ -291,7 +294,7 @@ def _node(draw, budget, depth, keys, kinds, max_depth):
             if draw(st.booleans()):
                 hist.append(['rot', draw(st.integers(-2, 2))])
             else:
-                hist.append(['app', draw(_LEAF)])
+                hist.append(['app', draw(leaf)])
         return ['deque', ch, draw(_DEQUE_MODE), hist]
     if kind == 'nt':
         name = draw(st.sampled_from(['NT0', 'NT1', 'NT2', 'NT2', 'NTSub']))
@@ -327,12 +330,12 @@ def _node(draw, budget, depth, keys, kinds, max_depth):
 
 
 @st.composite
-def tree_descs(draw, max_leaves=12, keys=None, kinds=None, max_depth=6, min_leaves=1):
+def tree_descs(draw, max_leaves=12, keys=None, kinds=None, max_depth=6, min_leaves=1, leaf=None):
     """Tree descriptions by explicit size budget (construction, no rejection)."""
     keys = keys if keys is not None else key_descs()
     kinds = tuple(kinds) if kinds is not None else ALL_KINDS
     budget = draw(st.integers(min_leaves, max_leaves))
-    return _node(draw, budget, 0, keys, kinds, max_depth)
+    return _node(draw, budget, 0, keys, kinds, max_depth, leaf)
 
 
 def contains_tag(desc, tags):
